@@ -6,9 +6,9 @@
 //! node without links.  Compiled only under cfg(kani) as a child module of the heap module.
 //! GROUP: heap
 //! MODULE: intrusive_pairing_heap::kani_verif
-//! TAGS: C20
+//! TAGS: C20 C15
 //! N: quick=3 thorough=4
-//! UNWIND_EXTRA: 4
+//! UNWIND_EXTRA: 7
 //! KIND: harness (concrete shape, symbolic keys)
 //! BOUNDED: this heap shape; all key values
 use super::*;
